@@ -65,11 +65,17 @@ def check(ctx, run):
         loc = f'{b.file}:{b.line}'
         for k in ('Null', 'Bool', 'Number', 'String', 'Array', 'Object'):
             ok = kinds.get(k) == {k}
+            if not ok and not kinds.get(k):
+                run.undecided('R19.2', fn, f'kind[{k}]', f'no return path converting {k} was recognised in this function (an explicit work list / helper instead of a recursive match?): not decided', loc)
+                continue
             (run.proved if ok else run.violation)('R19.2', fn, f'kind[{k}]', f'-> Value::{k}' if ok else f'serde_json {k} is converted to {sorted(kinds.get(k, []))}', loc)
         exp = {'UInt64': ({'is_u64': True}, ['as_u64']), 'Int64': ({'is_u64': False, 'is_i64': True}, ['as_i64']), 'Float64': ({'is_u64': False, 'is_i64': False}, ['as_f64'])}
         for nv, (tests, getter) in exp.items():
             got = nums.get(nv)
             ok = got is not None and all(got[0].get(k) == v for k, v in tests.items()) and got[1] == getter
+            if got is None:
+                run.undecided('R19.1', fn, f'number[{nv}]', f'no path producing {nv} was recognised in this function: how serde_json numbers are classified is not decided', loc)
+                continue
             (run.proved if ok else run.violation)('R19.1', fn, f'number[{nv}]', f'guarded by {tests}, read with {getter[0]}' if ok else
                                                    f'{nv} must be produced exactly when {tests} and read with {getter[0]}; found {got}: some integers would come back as a different '
                                                    'representation (e.g. u64 beyond i64::MAX rounded to a float)', loc)
@@ -101,6 +107,9 @@ def check(ctx, run):
         loc = f'{b.file}:{b.line}'
         for k in vs:
             ok = kinds.get(k) == {k}
+            if not ok and not kinds.get(k):
+                run.undecided('R19.2', fn, f'kind[{k}]', f'no return path converting {k} was recognised in this function (an explicit work list / helper instead of a recursive match?): not decided', loc)
+                continue
             (run.proved if ok else run.violation)('R19.2', fn, f'kind[{k}]', f'-> serde_json::Value::{k}' if ok else f'Value::{k} is converted to {sorted(kinds.get(k, []))}', loc)
         for nv, how in (('Int64', 'into'), ('UInt64', 'into'), ('Float64', 'from_f64')):
             got = nums.get(nv)
@@ -152,9 +161,11 @@ def check(ctx, run):
                                     how = f'from<{m_.group(1)}>'
                             nums.setdefault(nv, set()).add(('Ok', how))
                 else:
-                    res = 'nested' if any(is_call(s, 'functions::containter_to_serde_json') for s in subterms(v)) else show(v)[:30]
+                    res = 'nested' if any(is_call(s, 'functions::containter_to_serde_json') for s in subterms(v)) else '?' + show(v)[:30]
+            elif is_call(r, 'functions::containter_to_serde_json'):
+                res = 'nested'      # the nested converter's own Result returned as is
             else:
-                res = show(r)[:30]
+                res = '?' + show(r)[:30]
             if key == 'NUMBER_TAG' and res == 'Err':
                 d = [c for c in p.conds if c[0][0] == 'discr' and any(is_call(s, 'Number::decode') for s in subterms(c[0])) and not is_call(c[0][1], 'Try::branch')]
                 if d:
@@ -166,6 +177,10 @@ def check(ctx, run):
                'CONTAINER_TAG': {'nested'}, 'otherwise': {'Err'}}
         for k, v in exp.items():
             ok = table.get(k) == v
+            if not ok and table.get(k) and any(isinstance(x_, str) and x_.startswith('?') for x_ in table.get(k)) and (v <= {x_ for x_ in table.get(k) if not (isinstance(x_, str) and x_.startswith('?'))} or
+                                                                                                                   not {x_ for x_ in table.get(k) if not (isinstance(x_, str) and x_.startswith('?'))}):
+                run.undecided('R19.2', b.path, f'tag[{k}]', f'expected {sorted(v)}; some paths for this entry kind return a value built by combinators this rule does not read ({sorted(table.get(k))}): not decided', loc)
+                continue
             if not ok and not table.get(k):
                 run.undecided('R19.2', b.path, f'tag[{k}]', f'expected {sorted(v)}; no arm for this entry kind was recognised in this function (restructured?): not decided', loc)
                 continue
@@ -178,6 +193,14 @@ def check(ctx, run):
             if not ok and nv == 'Float64' and ('Ok', 'from_f64') in got and not any(called(callee_name_(t), 'Option::unwrap', 'Option::expect') for _, t in b.calls()
                                                                                       if any(True for _ in [0])) and ('Err', 'non-finite') not in got:
                 run.undecided(rule, b.path, f'number[{nv}]', 'finite floats go through from_f64 and no unwrap/expect is applied, but the path taken by a non-finite float was not recognised', loc)
+                continue
+            if not ok and not got:
+                # no outcome for this representation was recognised at all (the conversion is written with combinators / in a helper)
+                unwraps = any(called(callee_name_(t), 'Option::unwrap', 'Option::expect') for _, t in b.calls())
+                if nv == 'Float64' and unwraps and any(called(callee_name_(t), 'Number::from_f64') for _, t in b.calls()):
+                    run.violation(rule, b.path, f'number[{nv}]', 'from_f64 is followed by unwrap/expect: a non-finite float panics instead of returning an error', loc)
+                else:
+                    run.undecided(rule, b.path, f'number[{nv}]', f'no outcome for {nv} was recognised on the paths of this function (expected {sorted(want)}): not decided', loc)
                 continue
             (run.proved if ok else run.violation)(rule, b.path, f'number[{nv}]', 'exact integer of the same signedness' if ok and nv != 'Float64' else ('finite floats via from_f64, non-finite -> Err (no panic)' if ok else
                                                    f'{nv} outcomes are {sorted(got)}, expected {sorted(want)}'), loc)
